@@ -5,7 +5,10 @@ Proof: Props/C14.v (GalerkinModel.v, GalerkinTheory.v, GalerkinQc.v on top of th
 
 Tie.  poisson_solver.py is numpy/scipy code and cannot be lifted; every solver object is built from the
 CURRENT source and its float tables are read back and converted to the exact rationals they are:
-knots, quadrature points of every cell, weights, multFactor, the values of A, B, C, D, E at the points.
+knots, quadrature points of every cell, weights, multFactor (passed to the model as one factor per cell), the values of A, B, C, D, E at the points.
+
+ The function path applies rhoFactor since the repair c0d120c of /repo (theorems c14_rhs_func_spec,
+ c14_func_path_eq_discrete_path); a recurrence is reported under DiffEqSolver._solveModeFunc:rhoFactor.
 
  (1) exact oracle (independent of the Coq model): a dense assembly on fractions.Fraction with its own
      Cox-de Boor recursion from degree 0 over ALL basis functions, all cells, no overlap restriction, of
@@ -126,13 +129,24 @@ def int_modes(ntheta):
     return [I if I < (ntheta + 1) // 2 else I - ntheta for I in range(ntheta)]
 
 
+def cell_factors(ps, nc):
+    """the factor that multiplies the weights of [-1,1] in every cell: today one _multFactor for all cells; a solver that
+    keeps per-cell half-widths (attribute _halfWidths, or _cellWeights = weights x half-widths) is read accordingly"""
+    if hasattr(ps, '_halfWidths'):
+        return fr(ps._halfWidths)
+    if hasattr(ps, '_cellWeights'):
+        br = np.asarray(ps._rspline.breaks, dtype=float)
+        return fr((br[1:] - br[:-1]) * 0.5)
+    return [ff(ps._multFactor)] * nc
+
+
 def tables(c, ps):
     """exact copies of the float tables of the solver"""
     P = np.array(ps._evalPts, dtype=float)
     nc, nq = P.shape
     t = {'p': int(ps._rspline.degree), 'nc': int(nc), 'nq': int(nq), 'nb': int(ps._rspline.nbasis),
          'T': fr(ps._rspline.knots), 'pts': [[ff(x) for x in row] for row in P], 'w': fr(ps._weights),
-         'mf': ff(ps._multFactor)}
+         'mf': cell_factors(ps, nc)}
     with warnings.catch_warnings():
         warnings.simplefilter('ignore')
         for name in 'ABCDE':
@@ -143,7 +157,7 @@ def tables(c, ps):
 
 def model_head(t):
     tab = lambda M: qs([x for row in M for x in row])
-    return ' | '.join([qs(t['T']), tab(t['pts']), qs(t['w']), qstr(t['mf'])] + [tab(t[n]) for n in 'ABCDE'])
+    return ' | '.join([qs(t['T']), tab(t['pts']), qs(t['w']), qs(t['mf'])] + [tab(t[n]) for n in 'ABCDE'])
 
 
 # ------------------------------------------------------------------------------------------------
@@ -200,7 +214,7 @@ def oracle_mats(t, nodes):
     S = {k: np.zeros((nb, nb)) for k in KINDS}
     support_ok = True
     for (c, q, x, N, dN, aN) in nodes:
-        W = t['w'][q] * t['mf']
+        W = t['w'][q] * t['mf'][c]
         nz = [a for a in range(nb) if N[a] != 0 or dN[a] != 0]
         if any(a < c or a > c + t['p'] for a in nz):
             support_ok = False
@@ -262,7 +276,7 @@ def oracle_rhs_func(t, nodes, lo, hi, rhot):
         s = F(0)
         for (c, q, x, N, dN, aN) in nodes:
             if N[a] != 0:
-                s += t['w'][q] * t['mf'] * N[a] * x * rhot[c][q]
+                s += t['w'][q] * t['mf'][c] * N[a] * x * t['E'][c][q] * rhot[c][q]
         out.append(s)
     return out
 
@@ -295,8 +309,8 @@ def check_quadrature(c, ps, t, out):
         a, b = br[cell], br[cell + 1]
         for j in range(2 * n):
             ex = (b ** (j + 1) - a ** (j + 1)) / (j + 1)
-            got = sum(t['w'][q] * t['mf'] * t['pts'][cell][q] ** j for q in range(n))
-            scale = sum(abs(t['w'][q] * t['mf'] * t['pts'][cell][q] ** j) for q in range(n))
+            got = sum(t['w'][q] * t['mf'][cell] * t['pts'][cell][q] ** j for q in range(n))
+            scale = sum(abs(t['w'][q] * t['mf'][cell] * t['pts'][cell][q] ** j) for q in range(n))
             err = abs(float(got - ex)) / max(float(scale), 1e-300)
             worst = max(worst, err)
             out['n_or'] += 1
@@ -319,7 +333,7 @@ def check_ranges(c, ps, t, out):
     got = [(s.start, s.stop) for s in ps._coeff_range]
     gots = [(s.start + sr, s.stop + sr) for s in ps._stiffness_range]
     out['n_or'] += 2 * len(exp)
-    cls = 'mVals-inexact-nTheta' if c['ntheta'] in (49, 98, 103, 107, 161, 187, 196, 197) else 'modes'
+    cls = 'modes'
     if got != exp:
         _fail(out, 'DiffEqSolver.__init__:coeff_range:%s' % cls,
               '_coeff_range %r differs from the Dirichlet/Neumann choice per mode value %r (nTheta %d, lNeumannIdx %r, uNeumannIdx %r)'
@@ -539,17 +553,20 @@ def check_batch(c, ps, bs, t, r, first, out):
         _fail(out, 'DiffEqSolver.solveEquation:linearity', 'mode %d: solve(a rho1 + b rho2) differs from a solve(rho1) + b solve(rho2) by %.3g' % (modes[I], d))
 
 
-def check_func_E(c, ps, bs, t, r, out):
+def check_func_E(c, ps, bs, t, r, M, out):
     """rho = 1 as a spline (values 1 at the nodes) and as a function must give the same potential"""
     I = c['solve_modes'][0]
+    lo, hi, A = oracle_system(M, t['nb'], c['lN'], c['uN'], int_modes(c['ntheta'])[I])
+    if solve_exact(A, [F(0)] * (hi - lo)) is None:
+        return                   # under-integrated: the exact system is singular, the code's output is arbitrary
     _, pd, _ = code_solve_one(ps, I, np.ones(t['nb'], dtype=complex), r)
     _, pf, _ = code_solve_one(ps, I, None, r, func=RHOF['one'])
     out['n_or'] += 1
     sc = float(np.max(np.abs(pd)) + np.max(np.abs(pf)) + 1e-300)
     if float(np.max(np.abs(pd - pf))) > 1e-7 * sc:
-        _fail(out, 'DiffEqSolver._solveModeFunc:rhoFactor-ignored',
-              'rhoFactor %s: solveEquation(rho = 1) and solveEquationForFunction(rho = 1) differ by %.3g (of %.3g): the function path '
-              'does not multiply its right-hand side by E' % (c['funcs']['E'], float(np.max(np.abs(pd - pf))), sc))
+        _fail(out, 'DiffEqSolver._solveModeFunc:rhoFactor',
+              'rhoFactor %s: solveEquation(rho = 1) and solveEquationForFunction(rho = 1) differ by %.3g (of %.3g): the two paths do not '
+              'solve the same equation ... = E rho (theorem c14_func_path_eq_discrete_path)' % (c['funcs']['E'], float(np.max(np.abs(pd - pf))), sc))
 
 
 def case_stage(c):
@@ -588,7 +605,7 @@ def case_stage(c):
     if not blocking:
         r, first = check_solves(c, ps, bs, t, nodes, M, out)
         first['M'] = M
-        for flag, fn, args in (('batch', check_batch, (c, ps, bs, t, r, first, out)), ('func_E', check_func_E, (c, ps, bs, t, r, out))):
+        for flag, fn, args in (('batch', check_batch, (c, ps, bs, t, r, first, out)), ('func_E', check_func_E, (c, ps, bs, t, r, M, out))):
             if c.get(flag):
                 try:
                     fn(*args)
@@ -666,7 +683,7 @@ def poly_add(a, b, sb=1):
 
 def manufactured(c):
     """phi* = polynomial of degree <= p with phi*(Dirichlet end) = 0, phi*'(Neumann end) = 0; A = -1, B = b0 + b1 r,
-    C = c0, D = d1 r, E = 1; f = A phi*'' + B phi*' + C phi* - m^2 D phi*  (all coefficients small dyadic rationals)"""
+    C = c0, D = d1 r, E = 2, rho = f / 2; f = A phi*'' + B phi*' + C phi* - m^2 D phi*  (all coefficients small dyadic rationals)"""
     p, a, b = c['p'], F(qparse(c['breaks'][0])), F(qparse(c['breaks'][-1]))
     lneu, uneu = c['m'] in c['lN'], c['m'] in c['uN']
     # factors: (r-a) or (r-a)^2-free ... build phi* = u(r) with the required end conditions
@@ -726,10 +743,12 @@ def manufactured_stage(c, out):
     bs = spl.BSplines(spl.make_knots(breaks, p, False), p, False, False)
     need = max(2 * p + 2, len(f) + p + 1)          # highest degree of an integrand
     qdeg = need + 1
-    Bf, Cf, Df, ff_ = fl(B), fl(C), fl(D), fl(f)
+    fh = [x / 2 for x in f]                         # E = 2, rho = f / 2
+    Bf, Cf, Df, ff_ = fl(B), fl(C), fl(D), fl(fh)
     try:
         ps = DiffEqSolver(qdeg, bs, bs.nbasis, c['ntheta'], lNeumannIdx=list(c['lN']), uNeumannIdx=list(c['uN']),
-                          drFactor=lambda r: Bf[0] + Bf[1] * r, rFactor=lambda r: Cf[0], ddThetaFactor=lambda r: Df[1] * r)
+                          drFactor=lambda r: Bf[0] + Bf[1] * r, rFactor=lambda r: Cf[0], ddThetaFactor=lambda r: Df[1] * r,
+                          rhoFactor=lambda r: 2.0)
     except Exception as e:
         _fail(out, 'DiffEqSolver.__init__:exception', 'manufactured: %s: %s' % (type(e).__name__, str(e)[:200]))
         out['skipped'] = True
@@ -769,8 +788,8 @@ def manufactured_stage(c, out):
     rs = [ff(x) for x in r]
     out['model_line'] = ('gk.case %d %d %d | %s | %s | %s | %s | %s | %s | %s | %s | %s | %s | %s |  | %s | f %d %s'
                          % (p, len(brk) - 1, n, ' '.join(map(str, c['lN'])), ' '.join(map(str, c['uN'])), qs(T),
-                            qs([x for row in pts for x in row]), qs(ws), qstr(h), tab([F(-1)]), tab(B), tab(C), tab(D), tab([F(1)]),
-                            qs(rs), c['m'], tab(f)))
+                            qs([x for row in pts for x in row]), qs(ws), qs([h] * (len(brk) - 1)), tab([F(-1)]), tab(B), tab(C), tab(D), tab([F(2)]),
+                            qs(rs), c['m'], tab(fh)))
     out['model_values'] = qs([poly_eval(phi, x) for x in rs])
     if len({brk[k + 1] - brk[k] for k in range(len(brk) - 1)}) != 1:
         raise core.BrokenCheck('manufactured cases use uniform breaks')
@@ -1011,7 +1030,7 @@ def coq_term_band(line):
     g = [x.split() for x in line[len('gk.dense '):].split('|')]
     p, nc, nq = map(int, g[0])
     return ('gkq_show_mats (gkq_dense %s %d %d %d %s %s %s %s)'
-            % (coq_list(g[1]), p, nc, nq, coq_tab(g[2], nq), coq_list(g[3]), coq_q(g[4][0]), ' '.join(coq_tab(g[k], nq) for k in range(5, 10))))
+            % (coq_list(g[1]), p, nc, nq, coq_tab(g[2], nq), coq_list(g[3]), coq_list(g[4]), ' '.join(coq_tab(g[k], nq) for k in range(5, 10))))
 
 
 def coq_matches(val, ans):
@@ -1146,8 +1165,6 @@ def run():
                    'exactness for manufactured polynomial solutions is tested (exactly on the model with a rational rule, under a '
                    'condition-scaled bound on the code), not proved',
                    'that the Gauss-Legendre tables of numpy are the Gauss-Legendre rule is tested (moments of every cell), not proved',
-                   'REFUTED for right-hand sides given as functions when E is not 1: solveEquationForFunction ignores rhoFactor '
-                   '(c14_func_rhs_ignores_E_refuted; finding DiffEqSolver._solveModeFunc:rhoFactor-ignored)',
                    'gk_phi = value of self._rspline[a].eval (unit coefficient vector through nu_eval_spline_1d) is tied by the exact '
                    'comparison of the matrices, not by a Coq lemma'])
 
